@@ -57,6 +57,10 @@ def _cases(tier):
                         # state tensors stored with a real dtype (the local Krylov start vector is then real)
                         for dt, steps, it in ([(0.4j, 1, 3), (0.4j, 2, 2), (-0.3j, 1, 25)] if tier == 'quick' else combos):
                             yield [name, L, qD, integ, [dt.real, dt.imag], steps, it, 'real']
+                        # column-major tensors; tensors of size 2^-20 resp. 2^20 (state norm far from 1: the returned norm is judged relatively)
+                        for sk in ('fortran', 'tiny', 'large'):
+                            for dt, steps, it in ([(0.4j, 1, 3), (0.4j, 2, 25)] if tier == 'quick' else [(0.4j, 1, 3), (0.4j, 2, 25), (-0.3j, 3, 2)]):
+                                yield [name, L, qD, integ, [dt.real, dt.imag], steps, it, sk]
 
 
 def energy(v, Hd):
@@ -79,7 +83,8 @@ def run_case(case, ctx):
     ctx.cls('state_dtype:' + skind)
     v0 = dense.mps_to_vector(psi.A)
     n0 = float(np.linalg.norm(v0))
-    if n0 < 1e-12:
+    tscale = float(np.prod([np.linalg.norm(a) for a in psi.A]))
+    if n0 <= 1e-12 * tscale:
         raise OutOfDomain()
     Hd = dense.mpo_to_matrix(H.A)
     if np.max(np.abs(Hd - Hd.conj().T)) > 1e-12:
@@ -116,7 +121,8 @@ def run_case(case, ctx):
         v = dense.mps_to_vector(psi.A)
         ctx.obs(v)
         expect_ret = n0 if call == 0 else 1.0
-        ctx.check(abs(float(np.real(r)) - expect_ret) <= 1e-9 * (1 + expect_ret), 'returns_norm_of_input_state', f'call {call}: {r} vs {expect_ret}')
+        ctx.check(abs(float(np.real(r)) - expect_ret) <= 1e-9 * expect_ret + (1e-12 * tscale if call == 0 else 0), 'returns_norm_of_input_state',
+                  f'call {call}: {r} vs {expect_ret}')
         ctx.check(abs(np.linalg.norm(v) - 1) <= 1e-9, 'norm_stays_one', f'call {call}: {np.linalg.norm(v)}')
         ctx.check(abs(energy(v, Hd).real - e0) <= 1e-9 * escale, 'energy_conserved', f'call {call}: {energy(v, Hd).real} vs {e0}')
         ctx.check(ec.mpo_bytes(H) == hb, 'hamiltonian_not_modified')
@@ -132,7 +138,8 @@ def run_case(case, ctx):
                 rr = run_integrator(integ, H, cp, dt, steps, it)
                 ctx.calls += 1
                 w = dense.mps_to_vector(cp.A)
-                ctx.check(abs(float(np.real(rr)) - expect) <= 1e-9 * (1 + expect), f'{label}_copy_returns_its_norm', f'{rr} vs {expect}')
+                ctx.check(abs(float(np.real(rr)) - expect) <= 1e-9 * expect + 1e-12 * tscale * (abs(scale) if label == 'scaled' else 1 / n0),
+                          f'{label}_copy_returns_its_norm', f'{rr} vs {expect}')
                 ctx.check(abs(np.linalg.norm(w) - 1) <= 1e-9, f'{label}_copy_norm_one_after', np.linalg.norm(w))
                 ctx.check(abs(energy(w, Hd).real - e0) <= 1e-9 * escale, f'{label}_copy_energy_of_normalised_input', f'{energy(w, Hd).real} vs {e0}')
         if ctx.fails:
@@ -188,4 +195,4 @@ def spaces(tier, seed):
                   bounds={'hamiltonians': ec.ALL_H, 'L': [1, 2, 3, 4], 'dense_dim<=': 256, 'profiles': PROFILES, 'dt': [str(x) for x in DTS],
                           'steps': [1, 2, 3], 'krylov_iterations': [1, 2, 3, 5, 25],
                           'combination': 'quick: one axis varied at a time around (0.4j,1,3); thorough: full product',
-                          'repeated_calls': 3, 'state_dtypes': ['complex', 'real']})]
+                          'repeated_calls': 3, 'state_kinds': ['complex', 'real', 'fortran (column-major)', 'tiny (2^-20 per tensor)', 'large (2^20 per tensor)']})]
